@@ -200,6 +200,35 @@ pub fn shim_iter_nth<I: Iterator>(it: I, n: usize) -> (r: Option<I::Item>)
     let mut it = it;
     it.nth(n)
 }
+/// N2 shim for `SET.range((Unbounded, Excluded(X.clone()))).rev().find(|id| id < &X)`: the greatest element below X
+#[verifier::external_body]
+pub fn shim_btreeset_pred<'a, T: Ord + Clone>(s: &'a BTreeSet<T>, x: &T) -> (r: Option<&'a T>)
+    ensures crate::spec::actor_ok::<T>() ==> {
+        &&& (r is Some ==> s@.contains(*r->0) && crate::spec::lt(*r->0, *x) && forall|y: T| #[trigger] s@.contains(y) && crate::spec::lt(y, *x) ==> crate::spec::le(y, *r->0))
+        &&& (r is None ==> forall|y: T| #[trigger] s@.contains(y) ==> !crate::spec::lt(y, *x))
+    },
+{
+    use core::ops::Bound::*;
+    s.range((Unbounded, Excluded(x.clone()))).rev().find(|id| id < &x)
+}
+/// N2 shim for `SET.range((Excluded(X.clone()), Unbounded)).find(|id| id > &X)`: the least element above X
+#[verifier::external_body]
+pub fn shim_btreeset_succ<'a, T: Ord + Clone>(s: &'a BTreeSet<T>, x: &T) -> (r: Option<&'a T>)
+    ensures crate::spec::actor_ok::<T>() ==> {
+        &&& (r is Some ==> s@.contains(*r->0) && crate::spec::gt(*r->0, *x) && forall|y: T| #[trigger] s@.contains(y) && crate::spec::gt(y, *x) ==> crate::spec::le(*r->0, y))
+        &&& (r is None ==> forall|y: T| #[trigger] s@.contains(y) ==> !crate::spec::gt(y, *x))
+    },
+{
+    use core::ops::Bound::*;
+    s.range((Excluded(x.clone()), Unbounded)).find(|id| id > &x)
+}
+/// N2 shim for `SET.extend(OTHER)` with OTHER an owned BTreeSet
+#[verifier::external_body]
+pub fn shim_btreeset_extend<T: Ord>(s: &mut BTreeSet<T>, other: BTreeSet<T>)
+    ensures crate::spec::actor_ok::<T>() ==> final(s)@ == old(s)@.union(other@),
+{
+    s.extend(other)
+}
 /// `SET.append(&mut OTHER)` for BTreeSets
 #[verifier::external_body]
 pub fn shim_btreeset_append<T: Ord>(s: &mut BTreeSet<T>, other: &mut BTreeSet<T>)
